@@ -17,6 +17,7 @@ import json
 import math
 import os
 import random
+import zlib
 
 from . import lib
 
@@ -238,8 +239,23 @@ def record_c08(case):
     c = dict(case)
     path = _tmpfile(case["fmt"], case_text(case))
     c["err"] = ""
+    # environment action: every fourth case meets its handle already used by an earlier call of the public
+    # readers (format sniffing, a full read, a parse) - the answer must not depend on where the handle stands
+    pre = ("", "sniff", "", "read", "", "parse", "", "read-other")[zlib.crc32(str(case["id"]).encode()) % 8]
+    c["pre"] = pre
     try:
         with open(path) as f:
+            try:
+                if pre == "sniff":
+                    parser.is_cif(f)
+                elif pre == "read":
+                    parser.read_3d_structure(f)
+                elif pre == "read-other":
+                    parser.read_3d_structure(f, 2)
+                elif pre == "parse":
+                    parser.parse_pdb(f) if case["fmt"] == "pdb" else parser.parse_cif(f)
+            except Exception:
+                pass            # the earlier call is not the one under judgement
             if case["kind"] == "read":
                 c["res"] = []
                 s = parser.read_3d_structure(f, None if case["req"] == 0 else case["req"])
@@ -375,7 +391,8 @@ def _check_offsets():
 
 _check_offsets()
 
-ATOM_FEATURES = ["plain", "alt-lo-hi", "alt-hi-lo", "alt-tie", "alt3-lo-hi-mid", "alt3-mid-lo-hi", "rep-lo-hi", "rep-hi-lo", "rep-tie",
+ATOM_FEATURES = ["plain", "alt-lo-hi", "alt-hi-lo", "alt-tie", "alt3-lo-hi-mid", "alt3-mid-lo-hi", "altblock-lo-hi", "altblock-hi-lo",
+                 "rep-lo-hi", "rep-hi-lo", "rep-tie",
                  "clash300-lower", "clash300-higher", "clash300-tie", "clash490-lower", "miss510", "miss700",
                  "clash-next-residue"]
 NULL_FEATURES = ["occ-absent", "occ-absent-repeated", "occ-absent-clash"]
@@ -419,6 +436,7 @@ def build_model(rng, m, feats, *, chains=1, icn="?", ocn="?", origin=None, allow
             ids.add((residues[1]["ch"], residues[1]["num"], ic2))
     lines = []
     carry = None        # a clash partner owed to the first atom of the next residue
+    late = []           # alternate-conformer blocks owed after the NEXT residue: [(residue index after which to write, lines)]
     for r, res in enumerate(residues):
         o = _add(origin, (r * _STEP[0], r * _STEP[1], r * _STEP[2]))
         names = rng.sample(_NAMES[:18], 5) if not (res["het"] and res["rn"] == "MG") else ["MG"] + rng.sample(_NAMES[:18], 4)
@@ -438,6 +456,14 @@ def build_model(rng, m, feats, *, chains=1, icn="?", ocn="?", origin=None, allow
             occs = {"alt3-lo-hi-mid": (20, 50, 30), "alt3-mid-lo-hi": (30, 20, 50)}[feat]
             for q, (oc, al) in enumerate(zip(occs, "ABC")):
                 lines.append(_line(m, res, names[0], _add(p0, (q * _ALT_SHIFT[0], q * _ALT_SHIFT[1], q * _ALT_SHIFT[2])), oc, al))
+        elif feat.startswith("altblock-"):
+            # conformer B of two atoms is written as a block of its own after the next residue (if there is one)
+            oa, ob = {"altblock-lo-hi": (40, 60), "altblock-hi-lo": (60, 40)}[feat]
+            p1 = _add(o, _OFFS[4])
+            lines.append(_line(m, res, names[0], p0, oa, "A"))
+            lines.append(_line(m, res, names[3], p1, oa, "A"))
+            late.append((r + 1, [_line(m, res, names[0], _add(p0, _ALT_SHIFT), ob, "B"),
+                                 _line(m, res, names[3], _add(p1, _ALT_SHIFT), ob, "B")]))
         elif feat.startswith("alt-"):
             oa, ob = {"alt-lo-hi": (40, 60), "alt-hi-lo": (60, 40), "alt-tie": (50, 50)}[feat]
             second = rng.random() < 0.5      # a second atom with alternates, written block-wise (all A, then all B)
@@ -485,6 +511,12 @@ def build_model(rng, m, feats, *, chains=1, icn="?", ocn="?", origin=None, allow
             if rng.random() < 0.7:
                 lines.append(_line(m, res, names[j], _add(o, _OFFS[j]), rng.choice([100, 100, 100, 50, 0])))
         lines += block_b
+        if carry is None:       # (a clash partner owed to the next residue must stay first in its block)
+            for after, ls in [x for x in late if x[0] <= r]:
+                lines += ls
+            late = [x for x in late if x[0] > r]
+    for _, ls in late:
+        lines += ls
     return lines
 
 
